@@ -45,6 +45,15 @@ def c02(R):
             ok = pol.shape == (N, 2) and all(0 <= pol[i, 0] < A and pol[i, 1] == pol[i, 0] % 2 and abs(Qm[i, int(pol[i, 0])] - Qm[i].max()) <= 1e-9 * max(1, abs(Qm[i].max())) for i in range(N))
             if not ok: R.fail("c02.policy_greedy", "extracted policy is not an action vector attaining the maximum", inp, pol, Qm.argmax(1))
             if not close(np.asarray(s.__class__(prob, gamma=g, verbose=0, max_batch_size=bs).values), v0): R.fail("c08.initial_values", "initial values != initial_value(state)", inp)
+    # "for any problem": event weights that do NOT sum to one (mass depending on state and action, e.g. termination modelled as missing mass) are used as they are
+    for t in range(3 if TH else 2):
+        N, A, E = int(rng.integers(2, 7)), int(rng.integers(2, 4)), int(rng.integers(2, 4)); ns, r, p = rand_mdp(rng, N, A, E); p = p * rng.uniform(0.3, 1.0, (N, A, 1))
+        g = 0.9; V = rng.normal(0, 4, N); prob = Tab(ns, r, p); s = VI(prob, gamma=g, epsilon=1e-6, verbose=0, max_batch_size=3)
+        inp = desc(N, A, E, gamma=g, max_batch_size=3, note="event probabilities sum to less than one, by a state- and action-dependent factor", V=V, **tables(ns, r, p)); R.case((N, A, E, "substochastic", t), {k: inp[k] for k in ("N", "A", "E", "note")})
+        out = np.asarray(s._update_values(s.batched_states, prob.action_space, prob.random_event_space, s.gamma, jnp.array(V))); Qm = Qf(ns, r, p, g, V)
+        if out.shape != (N,) or not close(out, Qm.max(1)): R.fail("c02.sweep_is_bellman_backup", "sweep != max_a sum_e p (r + gamma V[idx(next)]) for event weights that do not sum to one", inp, out, Qm.max(1))
+        s.values = jnp.array(V); pol = np.asarray(s._extract_policy())
+        if not all(abs(Qm[i, int(pol[i, 0])] - Qm[i].max()) <= 1e-9 * max(1, abs(Qm[i].max())) for i in range(N)): R.fail("c02.policy_greedy", "extracted policy does not attain the maximum of sum_e p (r + gamma V) (weights not summing to one)", inp, pol[:, 0], Qm.argmax(1))
     # a problem with more than 256 (and more than 2**16 is out of reach) actions: index arithmetic must not be narrowed
     N, A, E = 3, 300, 1; ns = rng.integers(0, N, (N, A, E)); r = rng.normal(0, 3, (N, A, E)).round(2); r[:, 280:, :] += 50.0; p = np.ones((N, A, E))
     prob = Tab(ns, r, p); s = VI(prob, gamma=0.9, epsilon=1e-6, verbose=0, max_batch_size=2); V = rng.normal(0, 4, N); s.values = jnp.array(V); pol = np.asarray(s._extract_policy()); Qm = Qf(ns, r, p, 0.9, V)
@@ -149,6 +158,22 @@ def c04(R):
         if gstar - gp >= eps * (1 + 1e-6) + 1e-9: R.fail("c04.policy_gain_within_eps", "returned policy's average reward not within epsilon of optimal", inp, gp, gstar)
         res = bellman(ns, r, p, 1.0, V) - V - gain
         if np.abs(res).max() >= eps * (1 + 1e-6) + 1e-9: R.fail("c04.aroe_residual", "values do not solve the average-reward optimality equation within epsilon", inp, float(np.abs(res).max()), eps)
+    # the reported gain is a property of the iterates, not of how the run was driven: restored from a checkpoint (converged or not) and solved on
+    import tempfile, shutil, os
+    from mdpax.problems import Forest
+    base = tempfile.mkdtemp(prefix="c04_", dir=os.environ.get("VERIF_SCRATCH"))
+    try:
+        eps = 1e-6; ref = RVI(Forest(S=5), epsilon=eps, verbose=0); stref = ref.solve(2000); nref = int(stref.info.iteration); gref = float(stref.info.gain)
+        for k in sorted({nref, max(nref - 1, 1), max(nref // 2, 1)}):
+            d = os.path.join(base, f"k{k}"); s1 = RVI(Forest(S=5), epsilon=eps, verbose=0, checkpoint_dir=d, checkpoint_frequency=1, max_checkpoints=1, enable_async_checkpointing=False); s1.solve(k)
+            inp = dict(problem="Forest(S=5)", epsilon=eps, uninterrupted_stop=nref, restored_at=k, reference_gain=gref); R.case(("restored", k), inp)
+            for how in ("restore", "load_checkpoint"):
+                if how == "restore": s2 = RVI.restore(d, new_checkpoint_dir=d + "_r")
+                else: s2 = RVI(Forest(S=5), epsilon=eps, verbose=0, checkpoint_dir=d + "_l", checkpoint_frequency=1); s2.load_checkpoint(d)
+                st2 = s2.solve(2000)
+                if abs(float(st2.info.gain) - gref) >= eps * (1 + 1e-6) + 1e-9: R.fail("c04.gain_after_restore", f"{how}() at iteration k followed by solve() reports a gain that is not within epsilon of the one an uninterrupted run reports", dict(inp, how=how), float(st2.info.gain), gref)
+    finally:
+        shutil.rmtree(base, ignore_errors=True)
     return R
 
 # ----------------------------------------------------------------------------------------------------------------- C05
@@ -298,6 +323,10 @@ def c17(R):
                     Tab(ns, r, p4, prob_as_array=paa).build_transition_and_reward_matrices(); R.fail("c17.error_path_deficient_row", "one row sums to less than 1 - tolerance but no ValueError (it would be silently renormalised)", dict(inp, bad_pair=[s_bad, a_bad], row_sum=1 - defect))
                 except ValueError as ex:
                     if f"state {s_bad}, action {a_bad}" not in str(ex): R.fail("c17.error_names_pair", "ValueError does not name the offending (state, action)", dict(inp, bad_pair=[s_bad, a_bad]), str(ex)[:120])
+        try:                                                          # an explicit tolerance of ZERO is a tolerance: a deviation of 5e-5 exceeds it
+            Tab(ns, r, (lambda q_: (q_.__setitem__((s_bad, a_bad, 0), q_[s_bad, a_bad, 0] + 5e-5), q_)[1])(p.copy())).build_transition_and_reward_matrices(normalization_tolerance=0.0)
+            R.fail("c17.error_path_zero_tolerance", "no ValueError although a row deviates from one by 5e-5 and the tolerance passed is 0.0", dict(inp, bad_state=s_bad, bad_action=a_bad, normalization_tolerance=0.0))
+        except ValueError: pass
         p3 = p.copy(); p3[s_bad, a_bad, 0] += 5e-5                  # inside the tolerance: accepted and renormalised
         try:
             P3, _ = Tab(ns, r, p3, prob_as_array=paa).build_transition_and_reward_matrices()
